@@ -53,7 +53,7 @@ func suiteSelfTest(g *pegi.Grammar) (ran, skipped, bad int, lines []string) {
 			bad++
 			continue
 		}
-		ev := &spec.Evaluator{F: spec.Funcs{}}
+		ev := &spec.Evaluator{F: spec.Funcs{}, MemoRoot: true}
 		out, fails := ev.Eval(res.Path, doc, doc)
 		ran++
 		if sc.ExpectedJSON != "" {
